@@ -61,8 +61,13 @@ class MemWriter:
         return self.closed
 
     async def wait_closed(self) -> None:
+        # a real StreamWriter waits here for connection_lost(), which runs in a later loop iteration: this is a suspension point
+        # (a task that cancelled itself before calling it is interrupted here)
+        await asyncio.sleep(0)
         if self.fail_wait_closed is not None:
             raise self.fail_wait_closed
+        if isinstance(self.fail, ConnectionError):
+            raise self.fail  # like asyncio after a reset: wait_closed() re-raises the connection error
 
     def get_extra_info(self, name: str, default: Any = None) -> Any:
         if name == "peername":
